@@ -34,6 +34,7 @@ func TestVerifC23(t *testing.T) {
 	defer tr.Close()
 	r := lib.Rand()
 	n := lib.N(300)
+	vCorpusC23(tr, func(msg string) { t.Fatal(msg) })
 	done := 0
 	for done < n {
 		g := newVdb(r)
